@@ -6,6 +6,7 @@ import (
 
 	"github.com/freeconf/yang/meta"
 	"github.com/freeconf/yang/node"
+	"github.com/freeconf/yang/val"
 )
 
 type mapAsContainer struct {
@@ -64,12 +65,22 @@ func (def *mapAsList) setComparator(c ReflectListComparator) {
 	def.c = c
 }
 
+// mapKeyOf is the Go map key for the key of a list entry: the value itself where Go can hash
+// it, otherwise (a binary is a []byte, bits have a slice of names) its text
+func mapKeyOf(v val.Value) reflect.Value {
+	k := reflect.ValueOf(v.Value())
+	if k.IsValid() && k.Type().Comparable() {
+		return k
+	}
+	return reflect.ValueOf(v.String())
+}
+
 func (def *mapAsList) getByKey(r node.ListRequest) (reflect.Value, error) {
 	var empty reflect.Value
 	if !isKeyValid(r.Key) {
 		return empty, fmt.Errorf("no key specified for %s", r.Path.String())
 	}
-	keyVal := reflect.ValueOf(r.Key[0].Value())
+	keyVal := mapKeyOf(r.Key[0])
 	found := def.src.MapIndex(keyVal)
 	if !found.IsValid() {
 		return empty, nil
@@ -81,7 +92,7 @@ func (def *mapAsList) deleteByKey(r node.ListRequest) error {
 	if !isKeyValid(r.Key) {
 		return fmt.Errorf("no key specified for %s", r.Path.String())
 	}
-	keyVal := reflect.ValueOf(r.Key[0].Value())
+	keyVal := mapKeyOf(r.Key[0])
 	def.src.SetMapIndex(keyVal, reflect.ValueOf(nil))
 	return nil
 }
@@ -110,7 +121,7 @@ func (def *mapAsList) newListItem(r node.ListRequest) (reflect.Value, error) {
 	if err != nil {
 		return empty, err
 	}
-	keyVal := reflect.ValueOf(r.Key[0].Value())
+	keyVal := mapKeyOf(r.Key[0])
 	def.src.SetMapIndex(keyVal, itemVal)
 	return itemVal, nil
 }
